@@ -106,18 +106,25 @@ Proof.
 Qed.
 
 (* ---- RC4 ---- *)
-Lemma rc4_record d srv key version st content mac st' r :
+Lemma rc4_record_t rt d srv key version st content mac st' r :
   d_has_stream d = true -> cur_key d srv = Some key -> (if srv then d_rc4_server d else d_rc4_client d) = ss_off st ->
   len mac = d_mac_length d -> 0 < d_mac_length d ->
-  send_rc4 C key version st content mac = Ok (st', r) ->
+  send_rc4_t C rt key version st content mac = Ok (st', r) ->
   decrypt_generic_stream C d r srv = Ok (add_rc4 d srv (len (r_body r)), content) /\ ss_off st' = ss_off st + len (r_body r).
 Proof.
-  intros Hst Hk Ho Hm Hm0 H. unfold send_rc4 in H.
+  intros Hst Hk Ho Hm Hm0 H. unfold send_rc4_t in H.
   destruct (c_rc4 C key _ _) as [ct|] eqn:E; [|discriminate]. cbn [bind] in H. injection H as <- <-.
   destruct (rc4_rt C L _ _ _ _ E) as [Hdec Hl]. split; [|reflexivity].
   unfold decrypt_generic_stream, mk_record. cbn [r_body]. rewrite Hst. cbn [negb]. rewrite Hk. cbn [byte_of bind]. rewrite Ho, Hdec. cbn [bind].
   rewrite (drop_last_suffix content mac) by lia. reflexivity.
 Qed.
+
+Lemma rc4_record d srv key version st content mac st' r :
+  d_has_stream d = true -> cur_key d srv = Some key -> (if srv then d_rc4_server d else d_rc4_client d) = ss_off st ->
+  len mac = d_mac_length d -> 0 < d_mac_length d ->
+  send_rc4 C key version st content mac = Ok (st', r) ->
+  decrypt_generic_stream C d r srv = Ok (add_rc4 d srv (len (r_body r)), content) /\ ss_off st' = ss_off st + len (r_body r).
+Proof. exact (rc4_record_t 23 d srv key version st content mac st' r). Qed.
 
 (* ---- CBC ---- *)
 Lemma strip_mte d content mac p : d_etm d = false -> len mac = d_mac_length d -> 0 < d_mac_length d -> 0 <= p ->
@@ -148,12 +155,12 @@ Qed.
 
 Definition blk (a : alg) : Z := match a with AES | Camellia => 16 | _ => 8 end.
 
-Lemma cbc_explicit_record d srv a key version st iv content mac p st' r :
+Lemma cbc_explicit_record_t rt d srv a key version st iv content mac p st' r :
   cur_key d srv = Some key -> len iv = blk a -> len mac = d_mac_length d -> 0 < d_mac_length d -> 0 <= p -> d_compression d = 0 ->
-  send_cbc_explicit C a key version (d_etm d) st iv content mac p = Ok (st', r) ->
+  send_cbc_explicit_t C rt a key version (d_etm d) st iv content mac p = Ok (st', r) ->
   decrypt_tls12_block C d r srv a = Ok (d, content).
 Proof.
-  intros Hk Hiv Hm Hm0 Hp Hz H. unfold send_cbc_explicit in H.
+  intros Hk Hiv Hm Hm0 Hp Hz H. unfold send_cbc_explicit_t in H.
   destruct (c_cbc_enc C a key iv _) as [ct|] eqn:E; [|discriminate]. cbn [bind] in H. injection H as _ <-.
   destruct (cbc_rt C L _ _ _ _ _ E) as [Hdec _].
   unfold decrypt_tls12_block, mk_record. cbn [r_body]. rewrite Hk. cbn [byte_of bind]. fold (blk a).
@@ -165,16 +172,22 @@ Proof.
     unfold inflate_if. rewrite Hz. reflexivity.
 Qed.
 
-Lemma cbc_chained_record d srv a key version st content mac p st' r :
+Lemma cbc_explicit_record d srv a key version st iv content mac p st' r :
+  cur_key d srv = Some key -> len iv = blk a -> len mac = d_mac_length d -> 0 < d_mac_length d -> 0 <= p -> d_compression d = 0 ->
+  send_cbc_explicit C a key version (d_etm d) st iv content mac p = Ok (st', r) ->
+  decrypt_tls12_block C d r srv a = Ok (d, content).
+Proof. exact (cbc_explicit_record_t 23 d srv a key version st iv content mac p st' r). Qed.
+
+Lemma cbc_chained_record_t rt d srv a key version st content mac p st' r :
   cur_key d srv = Some key -> (if srv then d_last_block_server d else d_last_block_client d) = Some (ss_last st) ->
   len mac = d_mac_length d -> 0 < d_mac_length d -> 0 <= p -> d_compression d = 0 ->
-  send_cbc_chained C a key version (d_etm d) (d_block_length d / 8) st content mac p = Ok (st', r) ->
+  send_cbc_chained_t C rt a key version (d_etm d) (d_block_length d / 8) st content mac p = Ok (st', r) ->
   exists d', decrypt_last_block_iv_cbc C d r srv a = Ok (d', content) /\
              (if srv then d_last_block_server d' else d_last_block_client d') = Some (ss_last st') /\
              cur_key d' srv = cur_key d srv /\ d_etm d' = d_etm d /\ d_mac_length d' = d_mac_length d /\ d_compression d' = d_compression d /\
              d_block_length d' = d_block_length d.
 Proof.
-  intros Hk Hlb Hm Hm0 Hp Hz H. unfold send_cbc_chained in H.
+  intros Hk Hlb Hm Hm0 Hp Hz H. unfold send_cbc_chained_t in H.
   destruct (c_cbc_enc C a key _ _) as [ct|] eqn:E; [|discriminate]. cbn [bind] in H. injection H as <- <-.
   destruct (cbc_rt C L _ _ _ _ _ E) as [Hdec _].
   unfold decrypt_last_block_iv_cbc, mk_record. cbn [r_body]. rewrite Hk. cbn [byte_of bind]. rewrite Hlb. cbn [bind].
@@ -188,6 +201,16 @@ Proof.
     cbn [ss_last set_last_block d_last_block_server d_last_block_client cur_key d_server_key d_client_key d_etm d_mac_length d_compression d_block_length].
     destruct srv; repeat split; auto.
 Qed.
+
+Lemma cbc_chained_record d srv a key version st content mac p st' r :
+  cur_key d srv = Some key -> (if srv then d_last_block_server d else d_last_block_client d) = Some (ss_last st) ->
+  len mac = d_mac_length d -> 0 < d_mac_length d -> 0 <= p -> d_compression d = 0 ->
+  send_cbc_chained C a key version (d_etm d) (d_block_length d / 8) st content mac p = Ok (st', r) ->
+  exists d', decrypt_last_block_iv_cbc C d r srv a = Ok (d', content) /\
+             (if srv then d_last_block_server d' else d_last_block_client d') = Some (ss_last st') /\
+             cur_key d' srv = cur_key d srv /\ d_etm d' = d_etm d /\ d_mac_length d' = d_mac_length d /\ d_compression d' = d_compression d /\
+             d_block_length d' = d_block_length d.
+Proof. exact (cbc_chained_record_t 23 d srv a key version st content mac p st' r). Qed.
 End Sync.
 
 (* ---------- histories: any number of records, one after the other ---------- *)
